@@ -22,8 +22,8 @@ PID = 'C03'
 def run(ctx):
     quick = ctx.tier == 'quick'
     rng = random.Random(ctx.seed + 3)
-    ctx.assumptions += ['floats are compared to 1e-9: a correlation of 1.0000000000000002 (rounding of the normalised dot '
-                        'product) counts as inside [-1,1]']
+    ctx.assumptions += ['floats are compared to 1e-9: a correlation of 1.0000000000000002 (rounding in double precision) '
+                        'counts as inside [-1,1]']
     ctx.cov['rule'] = (
         'every record (cell x level) of every real run is one evaluation of the contract; runs come '
         'from a generator that forces iteration count 1, zero runners-up, more runners-up than '
@@ -120,6 +120,8 @@ def run(ctx):
                 s['markers'] = {'0/0': [1, 2, 3, 4, 5, 6]}
                 s['qgenes'] = rng.sample(range(1, 7), 6)
                 s['Q'] = [[rng.randint(0, 4) for _ in range(6)] for _ in s['cells']]
+            if i % 5 == 2:
+                s['cfg']['qdtype'] = 'float32'          # the usual on-disk type of a query matrix
             scns.append(s)
         results = campaign(ctx, scns, 'MapRun_Trace_c03', focus='C03')
         # raw counts incl. a cell without any count (constant profile: every correlation 0).  The votes are not
